@@ -144,3 +144,26 @@ def gen_stdin(rng):
 
 def cps(s):
     return ",".join(str(ord(c)) for c in s)
+
+
+# ---- output-encoding boundaries: programs that print exactly the value v as a character on stdout / stderr ----
+FACT = {0x7F: (1, 127), 0x80: (8, 16), 0x7FF: (23, 89), 0x800: (32, 64), 0xD7FF: (5, 11059), 0xD800: (216, 256), 0xDBFF: (3, 18773),
+        0xDC00: (220, 256), 0xDFFE: (114, 503), 0xDFFF: (143, 401), 0xE000: (224, 256), 0xFFFF: (255, 257), 0x10000: (256, 256),
+        0x110000: (1024, 1088)}
+
+
+def push_value(v):
+    """source of commands leaving exactly v on the selected stack"""
+    if v == 0x10FFFF:
+        return push_value(0x110000) + " 형. 흣.... 하앙..."          # 1114112 + (-1)
+    syl, dots = FACT[v]
+    head = "형" if syl == 1 else "혀" + "어" * (syl - 2) + "엉"
+    return head + "." * dots
+
+
+def boundary_programs():
+    out = []
+    for v in sorted(list(FACT) + [0x10FFFF]):
+        for stream in (1, 2):
+            out.append(("print-%x-to-%d" % (v, stream), push_value(v) + " 항" + "." * stream, ""))
+    return out
